@@ -8,6 +8,7 @@ import (
 	"fmt"
 	"math/big"
 	"runtime"
+	"strings"
 	"sync"
 	"time"
 
@@ -309,3 +310,49 @@ func dirtyFr() fr.Element {
 
 // dirtyEl: a valid, unrelated, non-normalised element used to pre-fill receivers.
 func dirtyEl() banderwagon.Element { return reprOf(conf().SRS[177], reprProjFlip) }
+
+// callLimit: generous wall-clock limit for ONE call of the implementation that normally takes milliseconds
+// to about a second; a call still running after it is reported as "does not return" (the goroutine is
+// abandoned and the enumeration continues, so a hang costs minutes instead of the whole unit limit).
+const callLimit = 2 * time.Minute
+
+// hangs counts calls that hit the limit in this worker; after two of them the remaining timed calls of the
+// process are skipped (the property is already violated and every further hang would cost minutes).
+var hangs int
+
+// timed runs f with the per-call limit; panics of the implementation and non-termination become violations.
+func timed(r *core.Result, check, api, input string, f func()) (ok bool) {
+	type res struct {
+		e  interface{}
+		st []byte
+	}
+	if hangs >= 2 {
+		r.Exhaustive = false
+		return false
+	}
+	done := make(chan res, 1)
+	go func() {
+		defer func() {
+			if e := recover(); e != nil {
+				buf := make([]byte, 4096)
+				n := runtime.Stack(buf, false)
+				done <- res{e, buf[:n]}
+				return
+			}
+			done <- res{}
+		}()
+		f()
+	}()
+	select {
+	case x := <-done:
+		if x.e != nil {
+			vio(r, check, api, input, "no panic", fmt.Sprintf("panic: %v\n%s", x.e, x.st))
+			return false
+		}
+		return true
+	case <-time.After(callLimit):
+		hangs++
+		vio(r, strings.Split(check, ".")[0]+".termination", api, input, fmt.Sprintf("the call returns (it normally takes well under a second; limit %s)", callLimit), "still running: the call blocks forever")
+		return false
+	}
+}
